@@ -5,4 +5,4 @@ import sys
 sys.path[:0] = ['/repo' + "/pulser-core", '/repo' + "/pulser-simulation", "/verif"]
 from symx.replay import replay
 sys.exit(replay(check='checks.c01', kernel='seqwf', shape={'wf': 'blackman', 'd': 17, 'minavg': 16},
-                assignment={'min_avg_amp': '1399141976314427194364211434150839038281078733450741776998762438423076050727889/66559249146679461923714607755982329123387589976082168842406286777974259712000', 'area': '30264189495929736/45035996273704955', 'det': 0}, label='seqwf:scheduled_average_not_below_min_avg_amp'))
+                assignment={'min_avg_amp': '12411968780872788392412763834192422212483546362567477042558327044447/186154682926743697509456849816930143380810479518311728538610875631278135181312', 'area': '53176277539021527133415077294879999430754638300531215759638254889/46913982592425326993310698038540862747180060362477754167996692447398723584000', 'det': 0}, label='seqwf:scheduled_average_not_below_min_avg_amp'))
